@@ -1,8 +1,63 @@
-//! C07 correspondence streams (stub).
-use crate::util::Opts;
+//! C07: `Core::handle_interrupt` on all 32x32 IF/IE values x 3 master-enable states x 3 run states x boundary SPs.
+//! c07 if= ie= ieu= ime= run= sp= ip= | if= ie= ime= run= sp= ip= cy= p1= p2= small= rb=
+use crate::devices::interrupts::InterruptFlag;
+use crate::emulator::{Core, InterruptState, RunState};
+use crate::mem::{memory_read_byte, MemoryAreas};
+use crate::roms::*;
+use crate::util::{Opts, Rng};
 use std::io::Write;
 
-pub fn run(sub: &str, _opts: &Opts, _w: &mut dyn Write) {
-  eprintln!("stream c07.{} not implemented", sub);
-  std::process::exit(2);
+const SPS: [u16; 40] = [0x0000, 0x0001, 0x0002, 0x2000, 0x2001, 0x4000, 0x4001, 0x6001, 0x7fff, 0x8000, 0x8001, 0x9fff, 0xa000, 0xa001,
+  0xbfff, 0xc000, 0xc001, 0xc002, 0xcfff, 0xd000, 0xd001, 0xdfff, 0xe000, 0xe001, 0xfe00, 0xfe01, 0xfea0, 0xfea1, 0xff00, 0xff0f, 0xff10,
+  0xff11, 0xff46, 0xff47, 0xff80, 0xff81, 0xfffe, 0xffff, 0xff42, 0xfff0];
+
+fn ime_of(k: u32) -> InterruptState { match k { 0 => InterruptState::Enabled, 1 => InterruptState::Disabled, _ => InterruptState::EnableNext } }
+fn ime_code(s: &InterruptState) -> u32 { match s { InterruptState::Enabled => 0, InterruptState::Disabled => 1, InterruptState::EnableNext => 2 } }
+fn run_of(k: u32) -> RunState { match k { 0 => RunState::Run, 1 => RunState::Stop, _ => RunState::Halt } }
+fn run_code(s: &RunState) -> u32 { match s { RunState::Run => 0, RunState::Stop => 1, RunState::Halt => 2 } }
+
+pub fn run(_sub: &str, opts: &Opts, w: &mut dyn Write) {
+  let mut rng = Rng::new(opts.seed ^ 0xc07);
+  let (shard, nshards) = opts.shard();
+  let mut sps: Vec<u16> = SPS.to_vec();
+  if opts.thorough { for _ in 0..360 { sps.push(rng.u16()); } }
+  let mut core = mk_core(0x03, 1, 3);
+  let mut idx = 0usize;
+  for &sp in sps.iter() { for ime in 0..3u32 { for run in 0..3u32 {
+    idx += 1;
+    if idx % nshards != shard { continue; }
+    for ifl in 0..32u8 { for ie in 0..32u8 {
+      let ip: u16 = match (ifl as u32 + ie as u32) % 4 { 0 => 0x0000, 1 => 0xffff, 2 => 0x1234, _ => 0xabcd };
+      let ieu: u8 = if ifl & 1 == 1 { 0xe0 } else { 0 };
+      core.memory.io.interrupt_flag = InterruptFlag::new(ifl);
+      core.memory.io.interrupt_mask = ie;
+      core.memory.io.interrupt_mask_upper = ieu;
+      core.interrupts_enabled = ime_of(ime);
+      core.run_state = run_of(run);
+      core.registers.sp = sp as u32;
+      core.registers.ip = ip as u32;
+      core.registers.cycles = 0;
+      let p = &mut core.memory as *mut MemoryAreas;
+      let (a1, a2) = (sp.wrapping_sub(1), sp.wrapping_sub(2));
+      let plain = |a: u16| (0x8000..0xe000).contains(&a) || (0xfe00..0xfea0).contains(&a) || (0xff80..0xffff).contains(&a);
+      let (o1, o2) = (memory_read_byte(p, a1), memory_read_byte(p, a2));
+      core.handle_interrupt();
+      let (sp2, ip2, cy) = (core.registers.sp, core.registers.ip, core.registers.cycles);
+      let small = crate::cpucase::small_digest(p);
+      writeln!(w, "c07 if={} ie={} ieu={} ime={} run={} sp={} ip={} | if={} ie={} ime={} run={} sp={} ip={} cy={} p1={} p2={} small={} rb={}",
+        ifl, ie, ieu, ime, run, sp, ip,
+        core.memory.io.interrupt_flag.as_u8(), memory_read_byte(p, 0xffff), ime_code(&core.interrupts_enabled), run_code(&core.run_state),
+        sp2, ip2, cy, memory_read_byte(p, sp.wrapping_sub(1)), memory_read_byte(p, sp.wrapping_sub(2)), small,
+        core.memory.cart_state.get_rom_bank()).unwrap();
+      // undo what the pushes did so that every case starts from the same machine
+      if cy != 0 {
+        if plain(a1) && plain(a2) {
+          crate::mem::memory_write_byte(p, a2, o2);
+          crate::mem::memory_write_byte(p, a1, o1);
+        } else {
+          core = mk_core(0x03, 1, 3);
+        }
+      }
+    }}
+  }}}
 }
